@@ -495,6 +495,23 @@ Proof.
   intros name fs x Ha Hf. exact (assoc_forallb (fun p => safe_val (snd p)) name fs x Hf Ha).
 Qed.
 
+Lemma arith_safe : forall sch f vs v,
+  (f = FAdd \/ f = FMinus \/ f = FMul \/ f = FDiv) -> apply_fn sch f vs = Ok v -> safe_val v = true.
+Proof.
+  intros sch f vs v Hf H.
+  destruct vs as [|[] [|[] [|]]]; destruct Hf as [->|[->|[->| ->]]]; simpl in H; try discriminate;
+    try (inversion H; reflexivity).
+  destruct (z0 =? 0)%Z; [discriminate|inversion H; reflexivity].
+Qed.
+
+Lemma maxlag_safe : forall sch v0 v, apply_fn sch FMaxlag [v0] = Ok v -> safe_val v0 = true -> safe_val v = true.
+Proof.
+  intros sch v0 v H Hs. destruct v0; simpl in H; try discriminate.
+  - inversion H; reflexivity.
+  - destruct v0; try discriminate. destruct (assoc "CurrentLag" fs) as [x|] eqn:Ha; [|discriminate].
+    inversion H; subst. simpl in Hs. eapply assoc_safe; eauto.
+Qed.
+
 Ltac spec_norm Hev :=
   match type of Hev with
   | context [fn_specs ?f] => let r := eval cbv in (fn_specs f) in change (fn_specs f) with r in Hev
@@ -763,6 +780,59 @@ Section Safe.
         destruct vs as [|v0 [|]]; try discriminate. simpl in Hev, Hsafe.
         apply andb_prop in Hsafe. destruct Hsafe as [Hs1 _].
         rewrite (safe_finite _ Hs1) in Hev. inversion Hev; reflexivity.
+    - (* add *)
+      destruct args as [|a [|b [|]]]; try discriminate. destruct fed; [discriminate|]. destruct final; [contradiction|].
+      destruct (is_t_int (ty_operand sch facts dst a) && is_t_int (ty_operand sch facts dst b)); [|discriminate].
+      inversion Hty; subst st. spec_norm Hev. apply bind_ok in Hev. destruct Hev as [vs [_ Hev]].
+      unfold inv. simpl. apply (arith_safe sch FAdd vs v); [tauto|exact Hev].
+    - (* minus *)
+      destruct args as [|a [|b [|]]]; try discriminate. destruct fed; [discriminate|]. destruct final; [contradiction|].
+      destruct (is_t_int (ty_operand sch facts dst a) && is_t_int (ty_operand sch facts dst b)); [|discriminate].
+      inversion Hty; subst st. spec_norm Hev. apply bind_ok in Hev. destruct Hev as [vs [_ Hev]].
+      unfold inv. simpl. apply (arith_safe sch FMinus vs v); [tauto|exact Hev].
+    - (* multiply *)
+      destruct args as [|a [|b [|]]]; try discriminate. destruct fed; [discriminate|]. destruct final; [contradiction|].
+      destruct (is_t_int (ty_operand sch facts dst a) && is_t_int (ty_operand sch facts dst b)); [|discriminate].
+      inversion Hty; subst st. spec_norm Hev. apply bind_ok in Hev. destruct Hev as [vs [_ Hev]].
+      unfold inv. simpl. apply (arith_safe sch FMul vs v); [tauto|exact Hev].
+    - (* divide *)
+      destruct args as [|a [|b [|]]]; try discriminate; try (destruct b; discriminate).
+      destruct fed; [destruct b; discriminate|]. destruct final; [contradiction|]. destruct b; try discriminate.
+      destruct (is_t_int (ty_operand sch facts dst a) && negb (z =? 0)%Z); [|discriminate].
+      inversion Hty; subst st. spec_norm Hev. apply bind_ok in Hev. destruct Hev as [vs [_ Hev]].
+      unfold inv. simpl. apply (arith_safe sch FDiv vs v); [tauto|exact Hev].
+    - (* maxlag *)
+      assert (Hst : s_json st = false).
+      { destruct args as [|a [|]]; try discriminate; destruct fed; try discriminate;
+          unfold ty_maxlag in Hty;
+          repeat match type of Hty with
+                 | match ?x with _ => _ end = _ => destruct x; try discriminate
+                 | (if ?x then _ else _) = _ => destruct x; try discriminate
+                 end; inversion Hty; reflexivity. }
+      unfold inv. rewrite Hst.
+      spec_norm Hev. apply bind_ok in Hev. destruct Hev as [vs [Hvs' Hev]].
+      destruct args as [|a [|]]; try discriminate.
+      + destruct fed as [fs|]; [|discriminate]. destruct final as [fv|]; [|contradiction].
+        cbn [eval_args] in Hvs'. apply bind_ok in Hvs'. destruct Hvs' as [v0 [Hc Hvs']]. inversion Hvs'; subst vs.
+        eapply maxlag_safe; eauto. simpl in Hfed. unfold inv in Hfed.
+        destruct (s_json fs); [subst fv; simpl in Hc; discriminate|]. eapply coerce_safe; eauto.
+      + destruct fed; [discriminate|]. destruct final; [contradiction|].
+        pose proof (Hvs _ _ _ Hvs') as Hsafe.
+        cbn [eval_args] in Hvs'. apply bind_ok in Hvs'. destruct Hvs' as [v0 [_ Hvs']]. cbn [bind] in Hvs'.
+        inversion Hvs'; subst vs.
+        simpl in Hsafe. apply andb_prop in Hsafe. destruct Hsafe as [Hs1 _]. eapply maxlag_safe; eauto.
+    - (* formattimestamp *)
+      assert (Hst : s_json st = false).
+      { destruct args as [|a [|b [|]]]; try discriminate; try (destruct b; discriminate).
+        destruct fed; [destruct b; discriminate|]. destruct b; try discriminate.
+        destruct a; simpl in Hty;
+          repeat match type of Hty with
+                 | match ?x with _ => _ end = _ => destruct x; try discriminate
+                 | (if ?x then _ else _) = _ => destruct x; try discriminate
+                 end; inversion Hty; reflexivity. }
+      unfold inv. rewrite Hst.
+      spec_norm Hev. apply bind_ok in Hev. destruct Hev as [vs [_ Hev]].
+      destruct vs as [|v1 [|v2 [|]]]; simpl in Hev; try discriminate. inversion Hev; reflexivity.
   Qed.
 End Safe.
 
